@@ -14,6 +14,7 @@ BUILTIN = {
     'std::ops::RangeInclusive': [('RangeInclusive', ['start', 'end', 'exhausted'], 0)],
     'std::ops::RangeFull': [('RangeFull', [], 0)],
     'std::pin::Pin': [('Pin', ['pointer'], 0)],
+    'std::net::IpAddr': [('V4', ['0'], 0), ('V6', ['0'], 1)],
 }
 
 
